@@ -59,6 +59,50 @@ fn observe(pkg: &rpm::Package) -> Result<String, rpm::Error> {
     Ok(format!("ok pkg={} arch={}", hx(&bytes), hx(&arch)))
 }
 
+/// A signer behind the public `Signing` trait whose blobs have a chosen total length: the genuine Ed25519 signature packet
+/// followed by well-framed private-use packets (tag 60) — `parse_signature` takes the first signature packet, so the package
+/// still verifies. What the signer emits around a signature of ANY length must be structurally valid (seed C09-9: a
+/// reserved-space entry sized `4128 − used`, with count 0 at the one exact fit).
+#[derive(Debug)]
+struct PadSigner { inner: rpm::signature::pgp::Signer, total: usize }
+impl rpm::signature::Signing for PadSigner {
+    type Signature = Vec<u8>;
+    fn sign(&self, data: impl std::io::Read, t: rpm::Timestamp) -> Result<Vec<u8>, rpm::Error> {
+        let mut sig = self.inner.sign(data, t)?;
+        let mut pad = self.total.saturating_sub(sig.len());
+        if pad == 1 { pad = 0; }
+        while pad > 0 {
+            let mut chunk = pad.min(150);
+            if pad - chunk == 1 { chunk -= 1; }
+            sig.push(0xfc);
+            sig.push((chunk - 2) as u8);
+            sig.extend(std::iter::repeat(0u8).take(chunk - 2));
+            pad -= chunk;
+        }
+        Ok(sig)
+    }
+    fn algorithm(&self) -> rpm::signature::AlgorithmType { self.inner.algorithm() }
+}
+
+thread_local! { static PAD_BASE: std::cell::RefCell<Option<Vec<u8>>> = const { std::cell::RefCell::new(None) }; }
+
+/// `validpad L`: a minimal built package (cached), signed with a blob of total length L, written out
+fn validpad(total: usize) -> Result<String, rpm::Error> {
+    let base = PAD_BASE.with(|c| -> Result<Vec<u8>, rpm::Error> {
+        if c.borrow().is_none() {
+            rpm::verif_hooks::set_now(Some(1_700_000_000));
+            let pkg = rpm::PackageBuilder::new("pad", "1", "MIT", "noarch", "s").compression(rpm::CompressionType::None).source_date(1_600_000_000u32).build()?;
+            let mut b = Vec::new();
+            pkg.write(&mut b)?;
+            *c.borrow_mut() = Some(b);
+        }
+        Ok(c.borrow().clone().unwrap())
+    })?;
+    let mut pkg = rpm::Package::parse(&mut &base[..])?;
+    pkg.sign_with_timestamp(PadSigner { inner: signer('E')?, total }, 1_600_000_000u32)?;
+    observe(&pkg)
+}
+
 fn get<'a>(tokens: &[&'a str], k: &str) -> Option<&'a str> {
     tokens.iter().find_map(|t| t.strip_prefix(k).and_then(|r| r.strip_prefix('=')))
 }
@@ -78,6 +122,7 @@ pub fn eval(op: &str, a: &[&str]) -> Option<String> {
             bld::cleanup();
             Some(match r { Ok(s) => s, Err(_) => "err".into() })
         }
+        "validpad" => Some(match a.first().and_then(|x| x.parse().ok()).map(validpad) { Some(Ok(s)) => s, _ => "err".into() }),
         "validfile" => {
             let r = (|| -> Result<String, rpm::Error> {
                 let bytes = arg_bytes(a[0]);
@@ -170,6 +215,15 @@ pub fn gen(ctx: &mut Ctx) {
             let big = std::fs::metadata(&p).map(|m| m.len() > 100_000).unwrap_or(false);
             if big && hi >= 2 && !ctx.thorough { continue; }
             if h.is_empty() { ctx.req(&format!("validfile @{}", p)); } else { ctx.req(&format!("validfile @{} then={}", p, h)); }
+        }
+    }
+    // 1b. signature blobs of every total length from the bare Ed25519 signature up to beyond a 4 KiB reserved area
+    {
+        let step = if ctx.thorough { 1 } else { 1 };
+        let mut l = 100u64;
+        while l <= 4400 {
+            if l % sn == si { ctx.req(&format!("validpad {}", l)); }
+            l += step;
         }
     }
     // 2. builder configurations (all compression types, scriptlets incl. empty interpreter lists,
